@@ -83,6 +83,7 @@ def check(ctx):
     check_factories(ctx, ci)
     check_validator(ctx)
     check_builder_records_all(ctx)
+    check_release_reader_records_all(ctx)
     check_node_identity(ctx, ('taxonomy.',), floor=3)
 
 
@@ -719,9 +720,17 @@ def check_builder_records_all(ctx):
                 return True
         return False
 
-    def allow(test, edge):
+    def _receiver(lp_):
+        for n_ in ast.walk(lp_):
+            if isinstance(n_, ast.Call) and isinstance(
+                    n_.func, ast.Attribute) and n_.func.attr == 'add' \
+                    and isinstance(n_.func.value, ast.Subscript):
+                return unparse(n_.func.value)
+        return ''
+
+    def allow(test, edge, _lp=[None]):
         # `if child in links: continue`: the insertion is idempotent
-        return CV.is_membership_test(test) and edge == 'true'
+        return CV.membership_skip_ok(test, edge, _lp[0], _receiver(_lp[0]))
     loops = {}
     for n in ast.walk(fi.node):
         if isinstance(n, ast.Call) and isinstance(n.func, ast.Attribute) \
@@ -740,7 +749,8 @@ def check_builder_records_all(ctx):
     for name, (lp, act) in sorted(loops.items()):
         CV.check_cover(
             ctx, fi, rule, f'get_taxonomy_tree:{name}', lp, act,
-            allow=allow if name == 'links' else None,
+            allow=(lambda t_, e_, _l=lp: CV.membership_skip_ok(
+                t_, e_, _l, _receiver(_l))) if name == 'links' else None,
             what='level pair' if name == 'links' else 'row',
             consequence='that link never reaches validate_taxonomy_tree, '
             'so a table in which a node has two parents at that level is '
@@ -771,3 +781,38 @@ def check_node_identity(ctx, modules, rule='R-KEY/node-identity', floor=1):
            f'{n} keyed stores inside loops over the taxonomy levels '
            'examined: every key chain contains the level',
            nontrivial=True)
+
+
+def check_release_reader_records_all(ctx):
+    """the reader of a data-release term table records every (parent,
+    term) row before the tree is validated: a row may be passed over only
+    for a reason that does not depend on what was read before (a level
+    without a parent level) or because that very link is already there"""
+    from ..rules import coverage as CV
+    db = ctx.db
+    fi = db.fn('taxonomy.data_release_utils:get_tree_above_leaves')
+    ctx.touch(fi)
+    cfg = cfg_of(fi)
+    rule = 'R-COVER/release-reader-records-every-link'
+    call = None
+    for n in ast.walk(fi.node):
+        if isinstance(n, ast.Call) and isinstance(n.func, ast.Attribute) \
+                and n.func.attr in ('add', 'append') and isinstance(
+                    n.func.value, ast.Subscript) and isinstance(
+                        n.func.value.value, ast.Subscript):
+            call = n
+    if call is None:
+        ctx.fail(rule, 'get_tree_above_leaves', fi.loc(),
+                 'no recording of (parent, term) links found')
+        return
+    lp = CV.innermost_loop(call)
+    recv = unparse(call.func.value)
+
+    def act(node):
+        return any(c is call for c in cfg.calls_in(node))
+    CV.check_cover(
+        ctx, fi, rule, 'get_tree_above_leaves:rows', lp, act,
+        allow=lambda t_, e_: CV.membership_skip_ok(t_, e_, lp, recv),
+        what='row',
+        consequence='a term listed under a second parent is dropped '
+        'before validation, and a table that is not a tree is accepted')
